@@ -43,9 +43,9 @@ static const PropCfg kProps[] = {
   { "C03", "C03", "exploration", 0, 60000, 600,
     "plan = one start with drawn argv/env bytes, env behaviour, working directory, program form and parent cwd depth (short .. beyond PATH_MAX), allocator/getcwd faults; oracle at the simulated exec; distinct = distinct event-log hash; non-trivial = start reached fork or failed in path construction" },
   { "C04", "C04", "fault_enumeration", 1, 3000, 900,
-    "scenario = drawn start configuration (incl. unexecutable inputs); cases = the fault-free run plus one run per (call site of start on either side of fork, outcome of that call kind), plus call-site pairs (sampled in quick, complete for scenarios <= 70 sites in thorough); distinct = distinct event-log hash; non-trivial = a fault fired or start failed" },
+    "scenario = drawn start configuration (incl. unexecutable inputs); cases = the fault-free run plus one run per (call site of start on either side of fork, outcome of that call kind), plus call-site pairs (sampled in quick, complete for scenarios <= 70 sites in thorough) and second faults placed on the calls each error path makes after its first fault (48 sampled per scenario in quick, 2500 in thorough); distinct = distinct event-log hash; non-trivial = a fault fired or start failed" },
   { "C05", "C05", "fault_enumeration", 1, 4000, 900,
-    "scenario = drawn API history ending in destroy (or a start scenario); cases = fault-free run plus one run per (library call site of any op, outcome) with the ownership ledger (descriptors, heap blocks, children) checked at every close/free and at the end; distinct = distinct event-log hash; non-trivial = a fault fired" },
+    "scenario = drawn API history ending in destroy (or a start scenario); cases = fault-free run plus one run per (library call site of any op, outcome), plus second faults on the calls each error path makes after its first fault (48 sampled per scenario in quick, 2500 in thorough), with the ownership ledger (descriptors, heap blocks, children) checked at every close/free and at the end; distinct = distinct event-log hash; non-trivial = a fault fired" },
   { "C06", "C06", "exploration", 0, 80000, 600,
     "plan = 1-3 handles, orders of start(with faults)/terminate/kill/wait/stop/destroy before and after exit and reap, aggressive pid reuse (squatter or recycle); monitor on every kill/waitpid argument; distinct = distinct event-log hash; non-trivial = a child was started" },
   { "C07", "C07", "exploration", 0, 150000, 900,
@@ -54,12 +54,12 @@ static const PropCfg kProps[] = {
     "plan = 1-4 handles with colliding deadlines (none/future/expired) + polls over 1-6 sources in drawn order with timeouts 0/finite/infinite colliding with the deadlines, waits with 0/finite/DEADLINE; bound checked on the blocking call itself and on return; distinct = distinct event-log hash; non-trivial = a poll or wait ran on a started handle" },
   { "C09", "C09", "exploration", 0, 100000, 900,
     "plan = 1-4 children with per-stream states (idle/data/closed by child/closed by parent/not a pipe) and polls with every interest mask over 1-6 sources incl. empty ones; events compared with the kernel's ground truth at the instant the underlying poll returned; distinct = distinct event-log hash; non-trivial = a poll ran on a started handle" },
-  { "C10", "C10", "exploration", 0, 31360, 600,
-    "complete enumeration of in(7) x out(7) x err(8) x shorthand(5) x caller descriptors 0-2 open/closed (8) x nonblocking(2) = 31360 configurations (invalid shorthand combinations fall back to the explicit ones); oracle = identity and direction of descriptors 0/1/2 at the simulated exec; distinct = distinct configuration index" },
+  { "C10", "C10", "exploration", 0, 94080, 600,
+    "complete enumeration of in(7) x out(7) x err(8) x shorthand(5) x caller descriptors 0-2 open/closed (8) x nonblocking(2) = 31360 configurations (invalid shorthand combinations fall back to the explicit ones), enumerated three times: exec mode, fork mode, exec mode with one injected failure inside start (a start that still succeeds must be connected as requested); later rounds mix the three at random; oracle = identity and direction of descriptors 0/1/2 at the simulated exec / at the return of the forked copy; distinct = distinct event-log hash" },
   { "C11", "C11", "exploration", 0, 40000, 600,
     "plan = random extra caller descriptors (any number up to the limit, limit-1 included in a fixed fraction, with/without close-on-exec), descriptor limits 16..>1Mi, every redirect configuration, 1-4 threads starting children concurrently with pre-emption inside pipe creation; oracle = descriptor table at exec; distinct = distinct event-log hash" },
   { "C12", "C12", "fault_enumeration", 1, 3000, 900,
-    "scenario = drawn start configuration x caller mask (random 64-bit) x ignored/handled signals; cases = fault-free run plus one run per (call site of start, outcome) excluding the mask-restoring call; snapshot of mask/dispositions/cwd/environ around start and signal state at exec; distinct = distinct event-log hash" },
+    "scenario = drawn start configuration x caller mask (random 64-bit) x ignored/handled signals; cases = fault-free run plus one run per (call site of start, outcome) excluding the mask-restoring call, plus sampled pairs and second faults on error-path calls; snapshot of mask/dispositions/cwd/environ around start and signal state at exec; distinct = distinct event-log hash" },
   { "C14", "C14", "exploration", 0, 150000, 900,
     "plan = 6-60 random ops over the whole API on 1-3 handles with arbitrary parameters, invalid/failing starts, fork mode, NULL handles, injected errors; every result compared with the life-cycle reference machine under ASan+UBSan; distinct = distinct event-log hash; non-trivial = at least one op ran on a started handle" },
   { "C15", "C15", "exploration", 0, 100000, 600,
@@ -129,8 +129,8 @@ CaseResult run_case(const PropCfg &cfg, const Plan &plan, RunResult *rr_out) {
 struct Found { std::string sig, cls, prop, detail; uint64_t seed; std::string plan_json; uint64_t count = 0; };
 
 struct WorkerStats {
-  uint64_t cases = 0, scenarios = 0, nontrivial = 0, hung = 0, capped = 0, calls = 0, switches = 0, faults_fired = 0, rechecks = 0;
-  int64_t sim_ns = 0;
+  uint64_t cases = 0, scenarios = 0, nontrivial = 0, hung = 0, capped = 0, calls = 0, switches = 0, faults_fired = 0, rechecks = 0, second_level = 0;
+  double sim_ns = 0;  // weeks of virtual time per plan in some profiles: an integer sum overflows
   uint64_t probes[P_COUNT] = { 0 };
   uint64_t fired[K_COUNT] = { 0 };
   uint64_t kind_calls[K_COUNT] = { 0 };
@@ -146,7 +146,7 @@ static void account(const PropCfg &cfg, WorkerStats &ws, const Plan &plan, const
   ws.cases++;
   ws.calls += rr.calls;
   ws.switches += rr.switches;
-  ws.sim_ns += rr.sim_ns;
+  ws.sim_ns += (double) rr.sim_ns;
   if (rr.hung) ws.hung++;
   if (rr.capped) ws.capped++;
   bool fired = false;
@@ -161,7 +161,7 @@ static void account(const PropCfg &cfg, WorkerStats &ws, const Plan &plan, const
   if (ws.scheds.size() < 3000000) ws.scheds.insert(rr.sched_hash);
   for (uint64_t t : rr.tuples) if (ws.tuples.size() < 1000000) ws.tuples.insert(t);
   for (auto &v : cr.viols) {
-    if (v.prop != cfg.id) { ws.other[v.sig]++; continue; }
+    if (v.prop != cfg.id && !(getenv("SIM_DIAG_ALSO") && v.prop == getenv("SIM_DIAG_ALSO"))) { ws.other[v.sig]++; continue; }  // SIM_DIAG_ALSO: development aid
     auto it = ws.found.find(v.sig);
     if (it == ws.found.end()) {
       if (ws.found.size() >= 3000) continue;
@@ -197,7 +197,7 @@ static void enumerate_scenario(const PropCfg &cfg, WorkerStats &ws, const Plan &
   if (prop == "C05") trace_ops.push_back(-2);  // every op, one traced run
   else
     for (size_t i = 0; i < base.ops.size(); i++)
-      if (base.ops[i].kind == OP_START) { trace_ops.push_back((int) i); break; }  // the first start only
+      if (base.ops[i].kind == OP_START && base.ops[i].h == 0) { trace_ops.push_back((int) i); break; }  // the scenario's first start only
   Rng pr = Rng::stream(seed, "pairs");
   for (int top : trace_ops) {
     RunOpts ro; ro.trace_op = top;
@@ -227,12 +227,45 @@ static void enumerate_scenario(const PropCfg &cfg, WorkerStats &ws, const Plan &
       Fault f; f.op = s.op; f.kind = s.kind; f.nth = s.nth; f.child = s.child; f.err = o.err; f.variant = o.variant;
       p.faults.push_back(f);
     };
+    // Second level: the calls an error path makes do not exist in the fault-free trace.  Each single-fault run is traced as well
+    // and the calls it makes after its fault fired become the sites of a second fault (sampled in quick, far deeper in thorough).
+    struct Second { CallSite first; Outcome fo; CallSite second; };
+    std::vector<Second> seconds;
+    uint64_t seconds_seen = 0;
+    size_t seconds_cap = thorough ? 2500 : 48;
     for (auto &s : sites) {
       for (auto &o : outcomes_for((Kind) s.kind, s.child)) {
         Plan p = base;
         with_fault(p, s, o);
         run_one(cfg, ws, p, seed, false);
+        RunOpts ro2; ro2.trace_op = top;
+        RunResult t2 = run_plan(p, ro2);
+        bool after = false, dup2_seen = false;
+        std::map<std::tuple<int, bool, int>, int> per_kind;
+        for (auto &s2 : t2.sites) {
+          if (s2.child && s2.kind == K_dup2) dup2_seen = true;
+          if (!after) { if (s2.op == s.op && s2.child == s.child && s2.kind == s.kind && s2.nth == s.nth) after = true; continue; }
+          if (s2.kind == K_free || s2.kind == K_clock_gettime || s2.kind == K__exit) continue;
+          if (s2.child && (s2.kind == K_write || (s2.kind == K_fcntl_getfd && !dup2_seen))) continue;
+          if (prop == "C12" && is_restoring_sigmask(s2)) continue;
+          if (outcomes_for((Kind) s2.kind, s2.child).empty()) continue;
+          if (++per_kind[std::make_tuple(s2.op, s2.child, (int) s2.kind)] > 4) continue;  // loops
+          // reservoir sample
+          seconds_seen++;
+          Second sec{ s, o, s2 };
+          if (seconds.size() < seconds_cap) seconds.push_back(sec);
+          else { uint64_t r = pr.below(seconds_seen); if (r < seconds_cap) seconds[(size_t) r] = sec; }
+        }
       }
+      if (now_s() > deadline_s) return;
+    }
+    for (auto &sec : seconds) {
+      auto oj = outcomes_for((Kind) sec.second.kind, sec.second.child);
+      Plan p = base;
+      with_fault(p, sec.first, sec.fo);
+      with_fault(p, sec.second, oj[pr.below(oj.size())]);
+      run_one(cfg, ws, p, seed, false);
+      ws.second_level++;
       if (now_s() > deadline_s) return;
     }
     if (prop == "C05") continue;
@@ -279,8 +312,8 @@ static std::string stats_json(const WorkerStats &ws) {
   Json j = Json::obj();
   j.set("cases", (unsigned long long) ws.cases).set("scenarios", (unsigned long long) ws.scenarios).set("nontrivial", (unsigned long long) ws.nontrivial);
   j.set("hung", (unsigned long long) ws.hung).set("capped", (unsigned long long) ws.capped).set("calls", (unsigned long long) ws.calls);
-  j.set("switches", (unsigned long long) ws.switches).set("faults_fired", (unsigned long long) ws.faults_fired).set("rechecks", (unsigned long long) ws.rechecks);
-  j.set("sim_ns", (long long) ws.sim_ns);
+  j.set("switches", (unsigned long long) ws.switches).set("faults_fired", (unsigned long long) ws.faults_fired).set("rechecks", (unsigned long long) ws.rechecks).set("second_level", (unsigned long long) ws.second_level);
+  j.set("sim_ns", ws.sim_ns);
   Json pr = Json::arr(); for (int i = 0; i < P_COUNT; i++) pr.push((unsigned long long) ws.probes[i]); j.set("probes", pr);
   Json fi = Json::arr(); for (int i = 0; i < K_COUNT; i++) fi.push((unsigned long long) ws.fired[i]); j.set("fired", fi);
   Json kc = Json::arr(); for (int i = 0; i < K_COUNT; i++) kc.push((unsigned long long) ws.kind_calls[i]); j.set("kind_calls", kc);
@@ -516,7 +549,7 @@ int main(int argc, char **argv) {
     if (!Json::parse(x.out, j)) { machinery = true; machinery_info = "worker output unreadable"; continue; }
     tot.cases += (uint64_t) j.num("cases"); tot.scenarios += (uint64_t) j.num("scenarios"); tot.nontrivial += (uint64_t) j.num("nontrivial");
     tot.hung += (uint64_t) j.num("hung"); tot.capped += (uint64_t) j.num("capped"); tot.calls += (uint64_t) j.num("calls");
-    tot.switches += (uint64_t) j.num("switches"); tot.faults_fired += (uint64_t) j.num("faults_fired"); tot.rechecks += (uint64_t) j.num("rechecks");
+    tot.switches += (uint64_t) j.num("switches"); tot.faults_fired += (uint64_t) j.num("faults_fired"); tot.rechecks += (uint64_t) j.num("rechecks"); tot.second_level += (uint64_t) j.num("second_level");
     tot.sim_ns += j.num("sim_ns");
     for (int i = 0; i < P_COUNT && (size_t) i < j.at("probes").size(); i++) tot.probes[i] += (uint64_t) j.at("probes")[(size_t) i].as_int();
     for (int i = 0; i < K_COUNT && (size_t) i < j.at("fired").size(); i++) tot.fired[i] += (uint64_t) j.at("fired")[(size_t) i].as_int();
@@ -640,6 +673,7 @@ int main(int argc, char **argv) {
   cov.set("hung_runs_classified", (unsigned long long) tot.hung);
   cov.set("runs_cut_by_call_cap", (unsigned long long) tot.capped);
   cov.set("determinism_rechecks", (unsigned long long) tot.rechecks);
+  if (cfg->mode == 1) cov.set("error_path_second_faults", (unsigned long long) tot.second_level);
   Json fired = Json::obj();
   for (int i = 0; i < K_COUNT; i++) if (tot.fired[i]) fired.set(kind_name[i], (unsigned long long) tot.fired[i]);
   cov.set("faults_fired_by_call", fired);
@@ -651,7 +685,9 @@ int main(int argc, char **argv) {
   cov.set("probes", pr);
   Json oth = Json::obj();
   for (auto &kv : tot.other) oth.set(kv.first, (unsigned long long) kv.second);
-  cov.set("other_property_signatures_seen", oth);
+  // Every oracle runs in every profile, but each is calibrated (fault mix, child behaviour, allowed failures) for the profile of
+  // its own property only: what other properties' oracles said about this profile's plans is diagnostic, not a claim.
+  cov.set("foreign_oracle_hits_not_claims", oth);
   cov.set("components", Json::obj()
                             .set("real", "reproc/src/*.c (POSIX) and reproc++/src/reproc.cpp + headers, compiled from /repo's working tree by this check")
                             .set("stub", "libc system-call layer (simk), child programs (scripts), clock, scheduler; allocator = real malloc behind a ledger shim")
